@@ -12,7 +12,7 @@
 (* drift  (specification/implementation mismatch) and printed at the end.  *)
 (* Many traces are concatenated in one file; an "Init" line resets.        *)
 (***************************************************************************)
-EXTENDS Core, Store, Json, IOUtils
+EXTENDS Core, Store, CodecCases, Json, IOUtils
 
 TraceFile == IOEnv.TRACE_FILE
 Trace == ndJsonDeserialize(TraceFile)
@@ -69,7 +69,7 @@ EvRec(x) ==
 Bump(s, k) == [ s EXCEPT ![k] = @ + 1 ]
 Stats0 == [ lines |-> 0, syncs |-> 0, inserts |-> 0, blocks |-> 0, traces |-> 0,
             creates |-> 0, fameDecided |-> 0, coinVotes |-> 0, skipped |-> 0,
-            stw |-> 0, str |-> 0, crashes |-> 0, boots |-> 0 ]
+            stw |-> 0, str |-> 0, crashes |-> 0, boots |-> 0, codec |-> 0 ]
 
 -----------------------------------------------------------------------------
 (* Property invariants on observed state                                   *)
@@ -605,6 +605,10 @@ SyncOutcome(n, x, o) ==
              \cup Checks("C10", "Inv_C10_SameAcrossNodes", lostNow \/ Inv_C10_SameAcrossNodes(n, o, last, lost1))
              \cup Checks("C10", "Inv_C10_BlockPeers", Inv_C10_BlockPeers(o))
              \cup Checks("C10", "Inv_C10_MembersOnly", lostNow \/ Inv_C10_MembersOnly(D, o))
+             \cup Checks("C15", "Inv_C15_FrameHashSameEverywhere",
+                         lostNow \/ \A i \in from..Len(dlv1[n]) : \A m \in (DOMAIN dlv1) \ (lost1 \cup {n}) :
+                             LET ob == BlockAt(dlv1[m], dlv1[n][i].idx) IN
+                             ob = << >> \/ (ob[1].fh = dlv1[n][i].fh /\ ob[1].ph = dlv1[n][i].ph))
              \cup Checks("C18", "Inv_C18_IsMedian", \A k \in 1..Len(o.blocks) : Inv_C18_IsMedian(D, o.blocks[k]))
              \cup Checks("C18", "Inv_C18_Bounded", \A k \in 1..Len(o.blocks) : Inv_C18_Bounded(D, o.blocks[k], Liars(meta)))
         F == IF lostNow THEN {} ELSE
@@ -1132,6 +1136,24 @@ TraceBootstrap ==
     /\ stats' = [ stats EXCEPT !.lines = @ + 1, !.boots = @ + 1, !.blocks = @ + Len(Line.o.blocks) ]
     /\ UNCHANGED << pst, D, meta, ref, base, lostSet, evals, fames, sub >>
 
+-----------------------------------------------------------------------------
+(* codec mode (C15): one executed case of CodecCases.tla                    *)
+
+TraceCodec ==
+    /\ Line.a = "Codec"
+    /\ LET x == Line.x
+           o == Line.o
+           d == x.kind \o ":" \o x.path \o (IF o.err = "" THEN "" ELSE ":" \o o.err)
+       IN  /\ viol' = AddCapped(viol,
+                  ChecksD("C15", "Inv_C15_ConversionSucceeds", d, o.err = "")
+                  \cup ChecksD("C15", "Inv_C15_SameHash", d, o.err # "" \/ o.h1 = o.h0)
+                  \cup ChecksD("C15", "Inv_C15_SignaturesStillValid", d, o.err # "" \/ (o.s0 => o.s1))
+                  \cup ChecksD("C15", "Inv_C15_SamePayload", d, o.err # "" \/ o.p1 = o.p0))
+           /\ drift' = AddCapped(drift, Checks("-", "Conf_Codec_CaseOfSpec", IsCase(x))
+                                        \cup Checks("-", "Conf_Codec_ValidBefore", o.s0))
+    /\ stats' = [ stats EXCEPT !.lines = @ + 1, !.codec = @ + 1 ]
+    /\ UNCHANGED << pst, D, nodes, dlv, sto, psto, rrv, meta, cev, ctx, base, last, pools, lostSet, evals, fames, ref, sub >>
+
 \* lines that carry no specification step (the driver could not run the step)
 TraceNoop ==
     /\ Line.a \in { "SyncFail", "Note", "StateChange" }
@@ -1145,7 +1167,7 @@ TraceStep ==
        \/ TraceQuorum \/ TraceQuorumAccept \/ TraceMedian \/ TraceHgInsert \/ TraceInstance
        \/ TraceNodeUp \/ TraceAddItx \/ TraceOpDone \/ TraceOffer \/ TraceLiveCheck \/ TraceFFOffer
        \/ TraceRpc \/ TraceStateRpc \/ TraceHeartbeat \/ TraceBytes
-       \/ TraceStW \/ TraceStR \/ TraceCrash \/ TraceBootstrap
+       \/ TraceStW \/ TraceStR \/ TraceCrash \/ TraceBootstrap \/ TraceCodec
 
 TraceDone ==
     /\ l = NLines + 1
